@@ -4,12 +4,10 @@
   dictionary entry) — otherwise validation itself raises and kills the reader.
 -/
 import DV.Model.TableWF
+import DV.Model.NodeInfo
 import DV.Generated.Dict
 import DV.Generated.Classes
 namespace DV
-
-def requiredDefsResolvable (dict : DTree) (cs : List ClassDef) : Bool :=
-  cs.all fun c => c.defs.all fun d => !d.required || (lookupDict dict d.code d.vendor).isSome
 
 theorem C08_required_defs_resolvable : requiredDefsResolvable Gen.dict Gen.classes = true := by decide +kernel
 
